@@ -78,7 +78,7 @@ def pin(eq_term, op):
     # finite-domain pins (hash of a string / key lookups / list positions) enumerate exhaustively; numeric
     # concretisations with an unbounded remainder are sampled (explorer caps the chain)
     finite = op.startswith(("hash(", "list index", "dict key", "operand-kind"))
-    kind = "pin-finite" if finite else ("pin-str" if ("str" in op or "bytes" in op or "re." in op) else "pin")
+    kind = "pin-finite" if finite else ("pin-bytes" if ("bytes" in op and "str" not in op) else ("pin-str" if ("str" in op or "re." in op) else "pin"))
     branch(eq_term, True, kind=kind)
 
 
